@@ -111,6 +111,18 @@ class Dir:
               "--group-update-time=-1", "--num-threads=1"] + list(extra)
         return a
 
+    def as_user(self, user):
+        """run the daemon under a non-root euid (user = (name, uid, gid) or None): every path belongs to it.  Implies
+        deployed(): the daemon's log file must be its own"""
+        if user is None:
+            return self
+        self.user = user
+        if not hasattr(self, "err"):
+            self.deployed(0o22)
+        os.chown(self.d, user[1], user[2])
+        os.chown(self.key, user[1], user[2])
+        return self
+
     def deployed(self, umask, syslog=False):
         """background-mode use: munged creates and inherits its own log file; the invoking shell's umask is `umask`"""
         self.err = os.path.join(self.d, "stderr")
@@ -190,9 +202,36 @@ def popen(D, argv, **kw):
     try:
         if getattr(D, "umask", None) is not None:
             kw.setdefault("umask", D.umask)
+        user = getattr(D, "user", None)
+        if user is not None:
+            # munged under strace: strace -u <name> (the tracee is munged itself, so system-call counts are unchanged);
+            # otherwise setpriv
+            if argv and argv[0] == "strace":
+                argv = ["strace", "-u", user[0]] + list(argv[1:])
+            elif argv and argv[0] == "sh":
+                k = argv.index("sh", 1) + 1 if "sh" in argv[1:] else None
+                if k:
+                    argv = list(argv[:k]) + ["setpriv", "--reuid=%d" % user[1], "--regid=%d" % user[2], "--clear-groups"] + list(argv[k:])
+            else:
+                argv = ["setpriv", "--reuid=%d" % user[1], "--regid=%d" % user[2], "--clear-groups"] + list(argv)
         return subprocess.Popen(argv, stdout=subprocess.DEVNULL, stderr=lf, **kw)
     finally:
         lf.close()
+
+
+def nonroot_user():
+    """(name, uid, gid) of an unprivileged account the daemon can be run as, None when this is not possible"""
+    import pwd
+    if os.geteuid() != 0 or not shutil.which("setpriv"):
+        return None
+    for name in ("nobody", "munge", "daemon"):
+        try:
+            pw = pwd.getpwnam(name)
+        except KeyError:
+            continue
+        if pw.pw_uid != 0:
+            return (name, pw.pw_uid, pw.pw_gid)
+    return None
 
 
 def kill_tree(ctx):
@@ -291,12 +330,15 @@ def canary(sockpath):
 
 
 def wait_for(pred, timeout=5.0, step=0.01):
+    """poll pred until it is true or the time is up; the interval grows from `step` to 0.1 s (dozens of scenarios
+    poll /proc at once)"""
     t0 = time.time()
     while time.time() - t0 < timeout:
         v = pred()
         if v:
             return v
         time.sleep(step)
+        step = min(step * 1.5, 0.1)
     return pred()
 
 
@@ -469,6 +511,21 @@ def strace_life(ctx, exe, tag):
         if p.poll() is None:
             p.kill()
         D.remove()
+
+
+def last_error(D):
+    """the last 'Error' line the daemon wrote, to its stderr or to its own log file"""
+    best = ""
+    for f in (getattr(D, "err", None), D.log):
+        if not f:
+            continue
+        try:
+            for line in open(f, errors="replace").read().splitlines():
+                if "Error" in line:
+                    best = line.strip()
+        except OSError:
+            pass
+    return best or tail(getattr(D, "err", None) or D.log, 200).strip()
 
 
 def tail(path, n=600):
@@ -717,6 +774,7 @@ def scenario_crash(ctx, exe, spec):
     bg = bool(spec.get("background"))
     if bg:
         D.deployed(spec.get("umask", 0o22))
+    D.as_user(spec.get("user"))
     fails = []
     try:
         if spec["phase"] == "serve":
@@ -764,6 +822,9 @@ def scenario_crash(ctx, exe, spec):
         if bg:
             where += " of a munged running in the background (umask %03o, its own log file)" % D.umask
             left = D.modes()
+        if spec.get("user"):
+            where += " [daemon run as user %s, uid %d, owner of all its paths]" % (spec["user"][0], spec["user"][1])
+            left = D.modes()
         # plain restart without --force: must come up and serve, or at least exit, within the bound
         b = popen(D, D.argv(exe, foreground=False))
         try:
@@ -779,7 +840,7 @@ def scenario_crash(ctx, exe, spec):
                             [n_ for n_ in ("lock", "sock", "pid") if os.path.lexists(D.names()[n_])]))
         elif rc != 0:
             fails.append("after %s (files left: %s) a start without --force failed "
-                         "(exit %s): %s" % (where, left, rc, tail(getattr(D, "err", None) or D.log, 300)))
+                         "(exit %s): %s" % (where, left, rc, last_error(D)))
         else:
             wait_serving(D, 3.0)
             bad, _, ps = check_serving_state(D, "restart after %s (files left: %s)" % (where, left))
@@ -799,7 +860,7 @@ def scenario_crash(ctx, exe, spec):
                             fails.append("restart after %s, then clean stop: the seed file is empty" % where)
                     except OSError:
                         fails.append("restart after %s, then clean stop: there is no seed file" % where)
-                    if bg and not fails:
+                    if (bg or spec.get("user")) and not fails:
                         # a third life on what the second one left (it may be the one that created the log file)
                         left2 = D.modes()
                         c = popen(D, D.argv(exe, foreground=False))
@@ -810,7 +871,7 @@ def scenario_crash(ctx, exe, spec):
                             rc3 = "timeout"
                         if rc3 != 0 or not wait_serving(D, RESTART_BOUND):
                             fails.append("restart after %s, clean stop, then another start without --force on what that life "
-                                         "left (mode/size: %s): it failed (exit %s): %s" % (where, left2, rc3, tail(D.err, 300)))
+                                         "left (mode/size: %s): it failed (exit %s): %s" % (where, left2, rc3, last_error(D)))
         return fails, {"left": left}
     finally:
         D.remove()
@@ -1285,12 +1346,13 @@ def stop_and_check(D, a, what, before):
 
 def scenario_cycles(ctx, exe, spec):
     """spec: tag, cycles.  start / serve / clean stop, `cycles` times on one set of paths"""
-    D = Dir(ctx, spec["tag"])
+    D = Dir(ctx, spec["tag"]).as_user(spec.get("user"))
     fails, ids = [], []
     try:
         prev = None
         for c in range(1, spec["cycles"] + 1):
-            what = "start/serve/stop cycle %d of %d on one set of paths" % (c, spec["cycles"])
+            what = "start/serve/stop cycle %d of %d on one set of paths%s" % (
+                c, spec["cycles"], " [daemon run as user %s]" % spec["user"][0] if spec.get("user") else "")
             a, err = start_and_serve(D, exe, what)
             if err:
                 fails.append(err)
@@ -1312,9 +1374,10 @@ def scenario_bg_cycles(ctx, exe, spec):
     """spec: tag, cycles, umask, syslog.  The deployment mode: `munged` (background) with --log-file (or --syslog) on one
     persistent set of paths, invoked under the given umask; every life inherits the log, seed (and whatever else) the
     previous one left.  Every start must succeed and serve, every stop must be clean and renew the seed."""
-    D = Dir(ctx, spec["tag"]).deployed(spec["umask"], spec.get("syslog", False))
+    D = Dir(ctx, spec["tag"]).deployed(spec["umask"], spec.get("syslog", False)).as_user(spec.get("user"))
     fails, hist = [], []
-    mode = "in the background with %s, umask %03o" % ("--syslog" if spec.get("syslog") else "--log-file", spec["umask"])
+    mode = "in the background with %s, umask %03o%s" % ("--syslog" if spec.get("syslog") else "--log-file", spec["umask"],
+                                                        ", daemon run as user %s" % spec["user"][0] if spec.get("user") else "")
     try:
         prev = None
         for c in range(1, spec["cycles"] + 1):
@@ -1328,7 +1391,7 @@ def scenario_bg_cycles(ctx, exe, spec):
                 rc = "timeout"
             if rc != 0:
                 fails.append("%s: the start without --force on what the previous life left (mode/size: %s) failed (exit %s): %s"
-                             % (what, left, rc, tail(D.err, 300).strip()))
+                             % (what, left, rc, last_error(D)))
                 break
             if not wait_serving(D, RESTART_BOUND):
                 fails.append("%s: started (exit 0) but does not serve" % what)
@@ -1647,10 +1710,11 @@ def scenario_closed_fds(ctx, exe, spec):
     """spec: tag, closed (subset of 0,1,2 closed at exec), foreground.  Start A that way; then a second start without
     --force on the same paths must exit with an error and leave A holding the lock, listening on the same inode, named
     by the pid file and serving; A's clean stop removes socket, lock and pid file."""
-    D = Dir(ctx, spec["tag"])
+    D = Dir(ctx, spec["tag"]).as_user(spec.get("user"))
     closed, fg = spec["closed"], spec["foreground"]
-    what = "munged started %s with descriptors %s closed" % ("with -F" if fg else "in background mode",
-                                                              "{" + ",".join(map(str, closed)) + "}")
+    what = "munged started %s with descriptors %s closed%s" % ("with -F" if fg else "in background mode",
+                                                                "{" + ",".join(map(str, closed)) + "}",
+                                                                " [as user %s]" % spec["user"][0] if spec.get("user") else "")
     fails = []
     try:
         redir = " ".join("%d%s&-" % (n, "<" if n == 0 else ">") for n in closed)
@@ -2014,6 +2078,10 @@ def _run_live(ctx, exe, oracle, concrete, corr):
         corr.append(("the start oracle could not be built or run", {"obligation": "oracle start"}))
     live_prog = None
     live_pos = None
+    user = nonroot_user()          # the shipped service runs munged as an unprivileged user: permission bits bite
+    if user is None:
+        ctx.notes.append("no unprivileged account / not root: the non-root scenarios were skipped")
+    ctx.cov["nonroot_user"] = user
     # ---- (a) trace equivalence
     if replay is None or replay.get("scenario") in (None, "trace", "forced"):
         toks, det, text = strace_life(ctx, exe, "life")
@@ -2171,14 +2239,36 @@ def _run_live(ctx, exe, oracle, concrete, corr):
                                "umask": (0, 0o22, 0o77)[i % 3]})
             for i, um in enumerate((0, 0o22, 0o77)):
                 cspecs.append({"tag": "cbs%d" % i, "phase": "serve", "sc": None, "n": None, "background": True, "umask": um})
+        # ... and with the daemon under a non-root euid that owns all its paths (quick: every fourth point + the writes)
+        if user and cal is not None:
+            pts = [("up", sc, n) for sc, n in cal["up"]] + [("down", sc, n) for sc, n in cal["down"]]
+            if not ctx.thorough:
+                pts = [pt for i, pt in enumerate(pts) if i % 4 == 1 or pt[1] == "write"]
+            for i, (ph, sc, n) in enumerate(pts):
+                cspecs.append({"tag": "cn%d" % i, "phase": ph, "sc": sc, "n": n, "user": user})
+            cspecs.append({"tag": "cns", "phase": "serve", "sc": None, "n": None, "user": user})
+        if user and calb is not None:
+            pts = [("up", sc, n) for sc, n in calb["up"]] + [("down", sc, n) for sc, n in calb["down"]]
+            if not ctx.thorough:
+                pts = [pt for i, pt in enumerate(pts) if i % 4 == 1 or pt[1] == "write"]
+            for i, (ph, sc, n) in enumerate(pts):
+                cspecs.append({"tag": "cm%d" % i, "phase": ph, "sc": sc, "n": n, "background": True, "umask": 0o22, "user": user})
+            cspecs.append({"tag": "cms", "phase": "serve", "sc": None, "n": None, "background": True, "umask": 0o22, "user": user})
     if cspecs:
         with ThreadPoolExecutor(max_workers=8) as ex:
-            res = list(ex.map(lambda s: (s, scenario_crash(ctx, exe, s)), cspecs))
+            def timed(sp):
+                t0 = time.time()
+                r = scenario_crash(ctx, exe, sp)
+                r[1]["secs"] = round(time.time() - t0, 1)
+                return sp, r
+            res = list(ex.map(timed, cspecs))
+            ctx.cov["crash_scenario_seconds"] = {sp["tag"]: r[1].get("secs") for sp, r in res}
         lefts = {}
         for s, (fails, fct) in res:
-            ctx.count(("crash", s["phase"], s["sc"], s["n"], s.get("background"), s.get("umask")))
+            ctx.count(("crash", s["phase"], s["sc"], s["n"], s.get("background"), s.get("umask"), bool(s.get("user"))))
             dist["crash_" + s["phase"]] = dist.get("crash_" + s["phase"], 0) + 1
-            lefts["%s%s:%s#%s" % ("bg%03o:" % s["umask"] if s.get("background") else "", s["phase"], s["sc"], s["n"])] = ",".join("%s=%s" % (n, v) for n, v in sorted(fct.get("left", {}).items()))
+            lefts["%s%s%s:%s#%s" % ("nonroot:" if s.get("user") else "", "bg%03o:" % s["umask"] if s.get("background") else "",
+                                    s["phase"], s["sc"], s["n"])] = ",".join("%s=%s" % (n, v) for n, v in sorted(fct.get("left", {}).items()))
             if fails:
                 sp = {k: v for k, v in s.items() if k != "tag"}
                 concrete.append((fails[0], {"scenario": "crash", "spec": sp, "all_failures": fails,
@@ -2200,11 +2290,15 @@ def _run_live(ctx, exe, oracle, concrete, corr):
             for mask in range(8):
                 gspecs.append({"tag": "cf%d" % i, "closed": [n for n in (0, 1, 2) if mask >> n & 1], "foreground": fg})
                 i += 1
+            if user:
+                for closed in ([], [0, 1, 2]):
+                    gspecs.append({"tag": "cf%d" % i, "closed": closed, "foreground": fg, "user": user})
+                    i += 1
     if gspecs:
         with ThreadPoolExecutor(max_workers=8) as ex:
             res = list(ex.map(lambda sp: (sp, scenario_closed_fds(ctx, exe, sp)), gspecs))
         for sp, (fails, fct) in res:
-            ctx.count(("closedfds", tuple(sp["closed"]), sp["foreground"]))
+            ctx.count(("closedfds", tuple(sp["closed"]), sp["foreground"], bool(sp.get("user"))))
             dist["closedfds"] = dist.get("closedfds", 0) + 1
             if fails:
                 concrete.append((fails[0], {"scenario": "closedfds", "spec": {k: v for k, v in sp.items() if k != "tag"},
@@ -2223,6 +2317,10 @@ def _run_live(ctx, exe, oracle, concrete, corr):
         for um in (0, 0o22, 0o77):
             especs.append({"tag": "bc%o" % um, "kind": "bgcycles", "cycles": 5 if ctx.thorough else 3, "umask": um})
         especs.append({"tag": "bcs", "kind": "bgcycles", "cycles": 3, "umask": 0o22, "syslog": True})
+        if user:
+            especs.append({"tag": "cyn", "kind": "cycles", "cycles": 3, "user": user})
+            especs.append({"tag": "bcn", "kind": "bgcycles", "cycles": 3, "umask": 0o22, "user": user})
+            especs.append({"tag": "bcn7", "kind": "bgcycles", "cycles": 3, "umask": 0o77, "user": user})
         for sz in ([0, 1, sb - 1, sb, sb + 1] + ([sb // 2, 4 * sb] if ctx.thorough else [])):
             especs.append({"tag": "ss%d" % sz, "kind": "seedstate", "size": sz})
     if especs:
@@ -2230,7 +2328,7 @@ def _run_live(ctx, exe, oracle, concrete, corr):
             fn = {"cycles": scenario_cycles, "seedstate": scenario_seedstate, "bgcycles": scenario_bg_cycles}
             res = list(ex.map(lambda sp: (sp, fn[sp["kind"]](ctx, exe, sp)), especs))
         for sp, (fails, fct) in res:
-            ctx.count((sp["kind"], sp.get("cycles"), sp.get("size"), sp.get("umask"), sp.get("syslog")))
+            ctx.count((sp["kind"], sp.get("cycles"), sp.get("size"), sp.get("umask"), sp.get("syslog"), bool(sp.get("user"))))
             hist = fct.get("left_after_each_life") or []
             if oracle and sp["kind"] == "bgcycles" and not sp.get("syslog") and hist and "log" in hist[0]:
                 rc_, out_, _ = vlib.run_lines([oracle], ["L %d" % sp["umask"]])
